@@ -129,7 +129,7 @@ Definition active (r : list (Z * nat)) (k : nat) (s : stream) : bool :=
 (* the part of the store the stream is concerned with is an interleaving of what it is committed
    to deliver and what it missed (followed, once the stream is over, by what came later) *)
 Definition covers (exp missed l : list beacon) (act : bool) : Prop :=
-  exists C rest, l = C ++ rest /\ merge exp missed C /\ (act = true -> rest = []).
+  exists rest, l = exp ++ missed ++ rest /\ (act = true -> rest = []).
 
 Definition phase_inv (bk : backend) (sto : list beacon) (r : list (Z * nat)) (k : nat) (s : stream) : Prop :=
   match s_phase s with
@@ -155,15 +155,20 @@ Definition reg_inv (sto : list beacon) (r : list (Z * nat)) (k : nat) (s : strea
       (registered r k = true -> skipn n0 (s_exp s) = skipn p sto)
   end.
 
-Definition noreg_inv (s : stream) : Prop :=
-  match s_phase s with PScan _ _ | PWaitReg => s_reg s = None | _ => True end.
+Definition noreg_inv (bk : backend) (s : stream) : Prop :=
+  match s_phase s with
+  | PScan _ _ => s_reg s = None /\ (bk = Mem -> s_missed s = [])
+  | PWaitReg => s_reg s = None
+  | PLive _ _ => s_missed s = []
+  | PDone _ => True
+  end.
 
 Record sinv (bk : backend) (sto : list beacon) (r : list (Z * nat)) (k : nat) (s : stream) : Prop := {
   si_base : (s_base s <= length sto)%nat;
   si_phase : phase_inv bk sto r k s;
   si_cov : covers (s_exp s) (s_missed s) (skipn (s_base s) sto) (active r k s);
   si_reg : reg_inv sto r k s;
-  si_noreg : noreg_inv s
+  si_noreg : noreg_inv bk s
 }.
 
 Definition rinv (st : sst) : Prop :=
@@ -186,7 +191,7 @@ Lemma sinv_weaken bk sto r r' k s :
 Proof.
   intros W [B P C R N]. split; auto.
   - unfold phase_inv in *. destruct (s_phase s); auto. destruct P as [P1 [P2 P3]]. repeat split; auto; apply P3; auto.
-  - unfold covers, active in *. destruct C as [C0 [rest [E [M A]]]]. exists C0, rest. repeat split; auto.
+  - unfold covers, active in *. destruct C as [rest [E A]]. exists rest. split; auto.
     destruct (s_phase s); auto.
   - unfold reg_inv in *. destruct (s_reg s) as [[p n0]|]; auto. destruct R as [R1 [R2 [R3 R4]]]. repeat split; auto.
 Qed.
@@ -217,19 +222,19 @@ Qed.
 Lemma covers_put_missed exp missed l b act :
   covers exp missed l true -> covers exp (missed ++ [b]) (l ++ [b]) act.
 Proof.
-  intros [C0 [rest [E [M A]]]]. specialize (A eq_refl). subst rest. rewrite app_nil_r in E. subst l.
-  exists (C0 ++ [b]), []. rewrite app_nil_r. repeat split; auto. apply merge_snoc_r; auto.
+  intros [rest [E A]]. specialize (A eq_refl). subst rest. subst l. exists []. split; auto.
+  rewrite !app_nil_r, <- !app_assoc. reflexivity.
 Qed.
-Lemma covers_put_seen exp missed l b act :
-  covers exp missed l true -> covers (exp ++ [b]) missed (l ++ [b]) act.
+Lemma covers_put_seen exp l b act :
+  covers exp [] l true -> covers (exp ++ [b]) [] (l ++ [b]) act.
 Proof.
-  intros [C0 [rest [E [M A]]]]. specialize (A eq_refl). subst rest. rewrite app_nil_r in E. subst l.
-  exists (C0 ++ [b]), []. rewrite app_nil_r. repeat split; auto. apply merge_snoc_l; auto.
+  intros [rest [E A]]. specialize (A eq_refl). subst rest. subst l. exists []. split; auto.
+  simpl. rewrite !app_nil_r. reflexivity.
 Qed.
 Lemma covers_put_over exp missed l b :
   covers exp missed l false -> covers exp missed (l ++ [b]) false.
 Proof.
-  intros [C0 [rest [E [M A]]]]. exists C0, (rest ++ [b]). subst l. rewrite app_assoc. repeat split; auto. discriminate.
+  intros [rest [E A]]. exists (rest ++ [b]). subst l. rewrite <- !app_assoc. split; auto. discriminate.
 Qed.
 
 Ltac rsimpl := cbn [s_phase s_sent s_exp s_base s_missed s_reg s_cid s_from].
@@ -244,40 +249,35 @@ Proof.
   assert (LB : (s_base s <= length (sto ++ [b]))%nat) by (rewrite app_length; simpl; lia).
   unfold on_put. unfold phase_inv, active, noreg_inv in *.
   destruct (s_phase s) as [snap pos| |q busy|e] eqn:Ph.
-  - destruct bk.
-    + split; rsimpl; unfold phase_inv, active, noreg_inv; rsimpl; rewrite ?Ph; auto.
-      * rewrite SK. apply covers_put_missed; auto.
-      * eapply reg_inv_put_unseen; eauto.
-    + destruct P as [P1 P2]. split; rsimpl; unfold phase_inv, active, noreg_inv; rsimpl; rewrite ?Ph; auto.
-      * split; [|rewrite app_length; simpl; lia]. rewrite skipn_snoc by lia. rewrite app_assoc, P1; auto.
-      * rewrite SK. apply covers_put_seen; auto.
-      * eapply reg_inv_put_seen; eauto.
-  - split; rsimpl; unfold phase_inv, active, noreg_inv; rsimpl; auto.
-    + rewrite SK. apply covers_put_missed; auto.
-    + eapply reg_inv_put_unseen; eauto.
-  - destruct P as [P1 [P2 P3]]. destruct (registered r k) eqn:Rg.
+  - destruct N as [N1 N2]. destruct bk.
+    + constructor; rsimpl; unfold phase_inv, active, noreg_inv; rsimpl; rewrite ?Ph;
+        [exact LB | exact P | rewrite SK; apply covers_put_missed; auto | eapply reg_inv_put_unseen; eauto | split; [auto | discriminate]].
+    + destruct P as [P1 P2]. specialize (N2 eq_refl). rewrite N2 in C.
+      constructor; rsimpl; unfold phase_inv, active, noreg_inv; rsimpl; rewrite ?Ph;
+        [exact LB | | rewrite N2, SK; apply covers_put_seen; auto | eapply reg_inv_put_seen; eauto | split; auto].
+      split; [|rewrite app_length; simpl; lia]. rewrite skipn_snoc by lia. rewrite app_assoc, P1; auto.
+  - constructor; rsimpl; unfold phase_inv, active, noreg_inv; rsimpl;
+      [exact LB | exact P | rewrite SK; apply covers_put_missed; auto | eapply reg_inv_put_unseen; eauto | exact N].
+  - destruct P as [P1 [P2 P3]]. rewrite N in C. destruct (registered r k) eqn:Rg.
     + destruct (P3 eq_refl) as [Hc He]. destruct busy.
-      * split; rsimpl; unfold phase_inv, active, noreg_inv; rsimpl; rewrite ?Rg; auto.
-        -- rewrite jobs_app, has_close_app, Hc. simpl. rewrite app_assoc, He. repeat split; auto; try discriminate. apply lprefix_refl.
-        -- rewrite SK. apply covers_put_seen; auto.
-        -- eapply reg_inv_put_seen; eauto.
+      * constructor; rsimpl; unfold phase_inv, active, noreg_inv; rsimpl; rewrite ?Rg;
+          [exact LB | | rewrite N, SK; apply covers_put_seen; auto | eapply reg_inv_put_seen; eauto | exact N].
+        rewrite jobs_app, has_close_app, Hc. simpl. rewrite app_assoc, He. repeat split; auto; try discriminate. apply lprefix_refl.
       * specialize (P1 eq_refl). subst q. simpl in *. rewrite app_nil_r in *.
-        split; rsimpl; unfold phase_inv, active, noreg_inv; rsimpl; rewrite ?Rg; auto.
-        -- rewrite app_nil_r, He. repeat split; auto; try discriminate. apply lprefix_refl.
-        -- rewrite SK. apply covers_put_seen; auto.
-        -- eapply reg_inv_put_seen; eauto.
-    + split; rsimpl; unfold phase_inv, active, noreg_inv; rewrite ?Ph, ?Rg; auto.
-      * rewrite SK. apply covers_put_over; auto.
-      * eapply reg_inv_put_unseen; eauto.
-  - split; rsimpl; unfold phase_inv, active, noreg_inv; rewrite ?Ph; auto.
-    + rewrite SK. apply covers_put_over; auto.
-    + eapply reg_inv_put_unseen; eauto. right. destruct (registered r k) eqn:Rg; auto.
-      destruct (HR eq_refl) as [q [busy E]]. congruence.
+        constructor; rsimpl; unfold phase_inv, active, noreg_inv; rsimpl; rewrite ?Rg;
+          [exact LB | | rewrite N, SK; apply covers_put_seen; auto | eapply reg_inv_put_seen; eauto | exact N].
+        simpl. rewrite app_nil_r, He. repeat split; auto; try discriminate. apply lprefix_refl.
+    + constructor; rsimpl; unfold phase_inv, active, noreg_inv; rewrite ?Ph, ?Rg;
+        [exact LB | split; [exact P1 | split; [exact P2 | intro Q; discriminate Q]] | rewrite N, SK; apply covers_put_over; auto | eapply reg_inv_put_unseen; eauto | exact N].
+  - constructor; rsimpl; unfold phase_inv, active, noreg_inv; rewrite ?Ph;
+      [exact LB | exact P | rewrite SK; apply covers_put_over; auto | | exact I].
+    eapply reg_inv_put_unseen; eauto. right. destruct (registered r k) eqn:Rg; auto.
+    destruct (HR eq_refl) as [q [busy E]]. congruence.
 Qed.
 
 
 Lemma covers_weaken exp missed l a : covers exp missed l a -> covers exp missed l false.
-Proof. intros [C0 [rest [E [M A]]]]. exists C0, rest. repeat split; auto. discriminate. Qed.
+Proof. intros [rest [E A]]. exists rest. split; auto. discriminate. Qed.
 
 Lemma rinv_live st k : rinv st -> registered (reg st) k = true ->
   exists s q busy, nth_error (streams st) k = Some s /\ s_phase s = PLive q busy.
@@ -316,17 +316,17 @@ Proof.
       destruct (Z.of_nat (length (store st)) - 1 <? from).
       { split; unfold phase_inv, covers, active, reg_inv, noreg_inv; simpl; auto.
         - apply lprefix_nil.
-        - exists [], []. rewrite skipn_all. repeat split; auto. constructor. }
+        - exists []. rewrite skipn_all. split; auto. }
       destruct (from =? 0).
       { split; unfold phase_inv, covers, active, reg_inv, noreg_inv; simpl; auto.
-        exists [], []. rewrite skipn_all. repeat split; auto. constructor. }
+        exists []. rewrite skipn_all. split; auto. }
       destruct (nth_error (store st) (Z.to_nat from)) as [b|] eqn:Nb.
       * pose proof (nth_lt _ _ _ Nb) as Lt. pose proof (skipn_nth _ _ _ Nb) as Sk.
         split; unfold phase_inv, covers, active, reg_inv, noreg_inv; cbn [s_phase s_sent s_exp s_base s_missed s_reg]; auto; try lia.
         -- destruct bk; [|split; auto]; rewrite Sk; reflexivity.
-        -- exists (skipn (Z.to_nat from) (store st)), []. rewrite app_nil_r. repeat split; auto. apply merge_left_only.
+        -- exists []. rewrite !app_nil_r. split; auto.
       * split; unfold phase_inv, covers, active, reg_inv, noreg_inv; simpl; auto.
-        exists [], []. rewrite skipn_all. repeat split; auto. constructor.
+        exists []. rewrite skipn_all. split; auto.
 Qed.
 
 (* ---- replacing one stream, the registrations only shrink ---- *)
@@ -368,13 +368,14 @@ Proof.
     assert (NRk : forall c, In (c, k) (reg st) -> False).
     { intros c H. destruct RI as [_ R0]. destruct (R0 _ _ H) as [s0 [q [busy [A [_ C0]]]]]. rewrite Hk in A. inversion A; subst. congruence. }
     assert (Rn : forall s', s_reg s' = None -> reg_inv (store st) (reg st) k s') by (intros s' E; unfold reg_inv; rewrite E; auto).
+    destruct N as [N N2].
     destruct ok.
     + remember (match bk with Bolt => snap | Mem => store st end) as src eqn:Esrc.
       assert (Psrc : s_sent s ++ skipn (S pos) src = s_exp s) by (subst src; destruct bk; [auto | destruct P; auto]).
       destruct (nth_error src (S pos)) as [b|] eqn:Nb.
       * apply (ginv_upd bk st k s); auto; [apply RI | intros c H; destruct (NRk c H) |].
         pose proof (skipn_nth _ _ _ Nb) as Sk.
-        constructor; unfold phase_inv, active, noreg_inv, push_sent; rs; [exact B | | exact C | apply Rn; exact N | exact N].
+        constructor; unfold phase_inv, active, noreg_inv, push_sent; rs; [exact B | | exact C | apply Rn; exact N | split; [exact N | exact N2]].
         destruct bk; subst src.
         -- rewrite <- app_assoc. cbn [app]. rewrite <- Sk. auto.
         -- split; [|apply (nth_lt _ _ _ Nb)]. rewrite <- app_assoc. cbn [app]. rewrite <- Sk. auto.
@@ -391,11 +392,11 @@ Proof.
     destruct ok.
     + destruct q as [|[b|] q'].
       * apply (ginv_upd bk st k s); auto; [apply RI | intros c H; split; [apply Cid; auto | simpl; eauto] |].
-        constructor; unfold phase_inv, active, noreg_inv, set_phase; rs; [exact B | | exact C | exact R | exact I].
+        constructor; unfold phase_inv, active, noreg_inv, set_phase; rs; [exact B | | exact C | exact R | exact N].
         split; auto.
       * apply (ginv_upd bk st k s); auto; [apply RI | intros c H; split; [apply Cid; auto | simpl; eauto] |].
         simpl in P2, P3.
-        constructor; unfold phase_inv, active, noreg_inv, push_sent; rs; [exact B | | exact C | exact R | exact I].
+        constructor; unfold phase_inv, active, noreg_inv, push_sent; rs; [exact B | | exact C | exact R | exact N].
         split; [discriminate|]. split.
         -- rewrite <- app_assoc. cbn [app]. auto.
         -- intro Rg. destruct (P3 Rg) as [Hc He]. split; auto. rewrite <- app_assoc. cbn [app]. auto.
@@ -433,13 +434,23 @@ Lemma sinv_on_close bk sto r k o q busy :
 Proof.
   intros Ph NR [B P C R N]. unfold on_close. rewrite Ph. unfold phase_inv, active, noreg_inv in *. rewrite Ph in *.
   destruct P as [P1 [P2 P3]]. rewrite NR in *. destruct busy.
-  - constructor; unfold phase_inv, active, noreg_inv, set_phase; rs; [exact B | | rewrite NR; exact C | exact R | exact I].
+  - constructor; unfold phase_inv, active, noreg_inv, set_phase; rs; [exact B | | rewrite NR; exact C | exact R | exact N].
     split; [discriminate|]. split.
     + rewrite jobs_app. simpl. rewrite app_nil_r. auto.
     + rewrite NR. discriminate.
   - constructor; unfold phase_inv, active, noreg_inv, set_phase; rs; [exact B | | eapply covers_weaken; eauto | exact R | exact I].
     eapply lprefix_app_l; eauto.
 Qed.
+
+Lemma skipn_skipn' {A} a b (l : list A) : skipn a (skipn b l) = skipn (a + b) l.
+Proof.
+  revert l; induction b as [|b IH]; intro l; simpl; [rewrite Nat.add_0_r; auto|].
+  destruct l; [rewrite !skipn_nil; auto|]. rewrite Nat.add_succ_r. simpl. apply IH.
+Qed.
+Lemma jobs_map_SJ l : jobs_beacons (map SJ l) = l.
+Proof. induction l; simpl; auto. f_equal; auto. Qed.
+Lemma has_close_map_SJ l : has_close (map SJ l) = false.
+Proof. induction l; simpl; auto. Qed.
 
 Lemma ginv_register bk st kz : ginv bk st -> ginv bk (ss_step bk st (SRegister kz)).
 Proof.
@@ -455,8 +466,14 @@ Proof.
                            | Some o => supd j (on_close o) (streams st)
                            | None => streams st end
                | None => streams st end).
-  set (s' := mkS (s_cid s) (s_from s) (PLive [] false) (s_sent s) (s_base s) (s_exp s) (s_missed s)
-                 (Some (length (store st), length (s_sent s)))).
+  set (rg := Some ((length (store st) - length (s_missed s))%nat, length (s_sent s))).
+  set (s' := match s_missed s with
+             | [] => mkS (s_cid s) (s_from s) (PLive [] false) (s_sent s) (s_base s) (s_exp s) [] rg
+             | m :: ms => mkS (s_cid s) (s_from s) (PLive (map SJ ms) true) (s_sent s ++ [m]) (s_base s)
+                              (s_exp s ++ m :: ms) [] rg
+             end).
+  assert (S'live : s_cid s' = s_cid s /\ exists q busy, s_phase s' = PLive q busy).
+  { unfold s'. destruct (s_missed s); simpl; eauto. }
   assert (Lk : (k < length (streams st))%nat) by apply (nth_lt _ _ _ Hk).
   assert (Lstrs : length strs = length (streams st)).
   { unfold strs. destruct (rget cid (reg st)); auto. destruct (nth_error (streams st) n); auto. apply length_supd. }
@@ -488,15 +505,31 @@ Proof.
       * apply In_rdel in H as [H Nc]. simpl in Nc. destruct (RR _ _ H) as [o [q [busy [A [Bc Cc]]]]].
         exists o, q, busy. split; auto. rewrite nth_supd_other; [|intro; subst; apply (NRk _ H)].
         rewrite (Other j c); auto.
-      * inversion H; subst c j. exists s', [], false. split; auto. apply nth_supd_same. lia.
+      * inversion H; subst c j. destruct S'live as [Ec [q0 [b0 Ep]]]. exists s', q0, b0. split; auto. apply nth_supd_same. lia.
   - (* every stream *)
     simpl. intros j sj H. destruct (Nat.eq_dec k j) as [<-|Nj].
     + rewrite nth_supd_same in H by lia. inversion H; subst sj.
-      constructor; unfold phase_inv, active, noreg_inv, s'; rs; auto.
-      * rewrite app_nil_r. split; auto. split; [rewrite P; apply lprefix_refl|]. intros _. split; auto.
-      * fold r'. rewrite Rk'. auto.
-      * unfold reg_inv; rs. rewrite P. split; [lia|]. split; [lia|].
-        rewrite !skipn_all. split; [apply lprefix_refl | auto].
+      destruct C as [rest [EC AC]]. specialize (AC eq_refl). subst rest. rewrite app_nil_r in EC.
+      assert (Lst : length (store st) = (s_base s + length (s_exp s) + length (s_missed s))%nat).
+      { assert (Q : length (skipn (s_base s) (store st)) = (length (s_exp s) + length (s_missed s))%nat) by (rewrite EC, app_length; auto).
+        rewrite skipn_length in Q. lia. }
+      assert (Sp : skipn (length (store st) - length (s_missed s)) (store st) = s_missed s).
+      { replace (length (store st) - length (s_missed s))%nat with (length (s_exp s) + s_base s)%nat by lia.
+        rewrite <- skipn_skipn', EC. rewrite skipn_app, skipn_all, Nat.sub_diag. reflexivity. }
+      assert (Rgi : forall e', e' = s_exp s ++ s_missed s ->
+                reg_inv (store st) r' k (mkS (s_cid s) (s_from s) (s_phase s') (s_sent s') (s_base s) e' [] rg)).
+      { intros e' Ee. unfold reg_inv, rg; rs. subst e'. rewrite P. split; [lia|]. split; [rewrite app_length; lia|].
+        rewrite skipn_app, skipn_all, Nat.sub_diag. simpl. rewrite Sp. split; [apply lprefix_refl | auto]. }
+      unfold s' in *. fold r'. destruct (s_missed s) as [|m ms] eqn:Em.
+      * constructor; unfold phase_inv, active, noreg_inv; rs; rewrite ?Rk';
+          [exact B | | exists []; rewrite EC, ?app_nil_r; split; auto | | reflexivity].
+        -- rewrite app_nil_r. split; auto. split; [rewrite P; apply lprefix_refl|]. intros _. split; auto.
+        -- specialize (Rgi (s_exp s) (eq_sym (app_nil_r _))). exact Rgi.
+      * constructor; unfold phase_inv, active, noreg_inv; rs; rewrite ?Rk';
+          [exact B | | exists []; rewrite EC, ?app_nil_r; split; auto | | reflexivity].
+        -- rewrite jobs_map_SJ, has_close_map_SJ, P, <- app_assoc. cbn [app].
+           split; [discriminate|]. split; [apply lprefix_refl | intros _; split; auto].
+        -- specialize (Rgi _ eq_refl). exact Rgi.
     + rewrite nth_supd_other in H; auto.
       assert (W : registered r' j = true -> registered (reg st) j = true).
       { intro Hr. destruct (Rg' _ Hr) as [->|[_ [c [_ Hin]]]]; [congruence|]. apply registered_In. eauto. }
@@ -530,30 +563,21 @@ Proof.
   - auto.
 Qed.
 
-Lemma covers_no_missed exp l a : covers exp [] l a -> lprefix exp l.
-Proof. intros [C0 [rest [E [M _]]]]. apply merge_nil_r in M. subst. exists rest; auto. Qed.
+Lemma covers_prefix exp missed l a : covers exp missed l a -> lprefix exp l.
+Proof. intros [rest [E _]]. exists (missed ++ rest). auto. Qed.
 
 Lemma reachable_ginv bk g es : ginv bk (ss_run bk (ss_init g) es).
 Proof. apply ginv_run. apply ginv_init. Qed.
 
-(* the only beacons a stream ever skips are those appended in its hand-over window *)
-Theorem stream_exact bk g es k s :
+(* what a stream has sent is a prefix of the stored beacons from its start position:
+   for every schedule, on both back-ends *)
+Theorem stream_full bk g es k s :
   nth_error (streams (ss_run bk (ss_init g) es)) k = Some s ->
-  lprefix (s_sent s) (s_exp s) /\
-  exists C rest, skipn (s_base s) (store (ss_run bk (ss_init g) es)) = C ++ rest /\ merge (s_exp s) (s_missed s) C.
-Proof.
-  intro H. destruct (reachable_ginv bk g es) as [_ SI]. specialize (SI _ _ H). split.
-  - eapply sinv_sent_exp; eauto.
-  - destruct (si_cov _ _ _ _ _ SI) as [C0 [rest [E [M _]]]]. exists C0, rest. auto.
-Qed.
-
-Theorem stream_contiguous bk g es k s :
-  nth_error (streams (ss_run bk (ss_init g) es)) k = Some s -> s_missed s = [] ->
   lprefix (s_sent s) (skipn (s_base s) (store (ss_run bk (ss_init g) es))).
 Proof.
-  intros H M. destruct (reachable_ginv bk g es) as [_ SI]. specialize (SI _ _ H).
+  intro H. destruct (reachable_ginv bk g es) as [_ SI]. specialize (SI _ _ H).
   eapply lprefix_trans; [eapply sinv_sent_exp; eauto|].
-  pose proof (si_cov _ _ _ _ _ SI) as C. rewrite M in C. eapply covers_no_missed; eauto.
+  eapply covers_prefix. apply (si_cov _ _ _ _ _ SI).
 Qed.
 
 Theorem stream_order_live bk g es k s p n0 :
@@ -589,13 +613,13 @@ Lemma lprefix_nth {A} (a b : list A) i x : lprefix a b -> nth_error a i = Some x
 Proof. intros [t E] H. subst. rewrite nth_error_app1; auto. apply (nth_lt _ _ _ H). Qed.
 
 (* the statement of the property in terms of rounds and contents *)
-Theorem stream_contiguous_rounds bk g es k s :
-  nth_error (streams (ss_run bk (ss_init g) es)) k = Some s -> s_missed s = [] ->
+Theorem stream_full_rounds bk g es k s :
+  nth_error (streams (ss_run bk (ss_init g) es)) k = Some s ->
   forall i b, nth_error (s_sent s) i = Some b ->
     fst b = Z.of_nat (s_base s + i) /\
     nth_error (store (ss_run bk (ss_init g) es)) (s_base s + i) = Some b.
 Proof.
-  intros H M i b Hi. pose proof (stream_contiguous bk g es k s H M) as P.
+  intros H i b Hi. pose proof (stream_full bk g es k s H) as P.
   pose proof (lprefix_nth _ _ _ _ P Hi) as Q. rewrite nth_error_skipn in Q. split; auto.
   apply (store_rounds_run bk es (ss_init g) (store_rounds_init g)); auto.
 Qed.
@@ -683,7 +707,7 @@ Proof.
   - destruct (nth_error (streams st) (Z.to_nat kz)) as [s|] eqn:Hk; [|apply I].
     destruct (s_phase s) eqn:Ph; try apply I. simpl. intro H.
     apply supd_cases in H as [[-> [-> _]]|[_ H]].
-    + eapply base_ok_same; [|apply (I _ _ Hk)]. apply origin_fields; simpl; auto. intros e H; congruence.
+    + eapply base_ok_same; [|apply (I _ _ Hk)]. apply origin_fields; [destruct (s_missed s); reflexivity | destruct (s_missed s); reflexivity | intros e0 H0; congruence].
     + destruct (rget (s_cid s) (reg st)) as [j|]; [|eauto].
       destruct (nth_error (streams st) j) as [o|] eqn:Hj; [|eauto].
       apply supd_cases in H as [[-> [-> _]]|[_ H]]; [|eauto].
